@@ -45,9 +45,13 @@ def check_verify_fn(ck, F):
 
     ok = False
     why = f"return value {ret!r}"
-    if isinstance(ret, Ite) and isinstance(ret.cond, Cond) and ret.cond.op == "pteq":
-        l, r = ret.cond.pts
-        acc, rej = (ret.a, ret.b) if not ret.cond.neg else (ret.b, ret.a)
+    from .. import analyses as AN_
+
+    chain, final = AN_.exit_chain(I, ret, lambda f: FX.same_fn(f, path))
+    lastc = chain[-1] if chain else None
+    if lastc is not None and isinstance(lastc[0], Cond) and lastc[0].op == "pteq" and lastc[0].neg:
+        l, r = lastc[0].pts
+        acc, rej = final, lastc[1]
         given = Pt.atom(ssym("P"))
         pair_ok = (pt_eq(l, want) and pt_eq(r, given)) or (pt_eq(r, want) and pt_eq(l, given))
         ok = pair_ok and isinstance(acc, Enum) and acc.variant == "Ok" and isinstance(rej, Enum) and rej.variant == "Err"
